@@ -59,7 +59,14 @@ func vRank(v []byte) (int, error) {
 	return r, nil
 }
 
+// The validator is bound to the key, as the /ipns and /pk validators are: a record is valid only under a key of the
+// harnesses' own alphabet (lower case, digits, '/', '-', '_'), never under e.g. the base32 datastore key it is filed under.
 func (vValidator) Validate(key string, value []byte) error {
+	for _, c := range key {
+		if !(c >= 'a' && c <= 'z' || c >= '0' && c <= '9' || c == '/' || c == '-' || c == '_') {
+			return fmt.Errorf("record validated under a foreign key %q", key)
+		}
+	}
 	_, err := vRank(value)
 	return err
 }
